@@ -27,6 +27,13 @@ Record case := {
   i_addr : bytes; i_type : N; i_staked : bool;   (* i_staked: answer of the responder's registry *)
   r_addr : bytes; r_type : N; r_staked : bool;   (* r_staked: answer of the initiator's registry *)
   r_ks_ok : bool;            (* responder's GetAddress reports the address of its own key *)
+  prior : N;                 (* an earlier handshake between the same two peer ids, finished before
+                                this one started: 0 none; 1 refused -- the initiating node's registry
+                                did not know the (provider) responder, so it gave up after reading the
+                                responder's request and the responder's final read failed; 2 accepted
+                                -- the node then reconnected with the same key, and the old connection
+                                was closed (its registry entry removed) while the responder was held *)
+  prior_ok : bool;           (* observation: that earlier Connect reported success *)
   conn_close_other : bool;   (* class 0: while the responder was held, another connection made
                                 under the initiator's peer id was closed at the responder *)
   (* observation *)
@@ -72,11 +79,42 @@ Definition ret_agrees (w : world) (c : case) : bool :=
   | None => negb (connect_ok c)
   end.
 
+(* the earlier attempt, run to its end on both sides *)
+Definition prior_cfg (c : case) : cfg :=
+  let c0 := cfg_of c in
+  if prior c =? 1 then
+    {| ini := ini c0;
+       rsp := {| pid_addr := pid_addr (rsp c0); sig_addr := sig_addr (rsp c0); ks_addr := ks_addr (rsp c0);
+                 ptype := ptype (rsp c0); staked := false |} |}
+  else c0.
+Definition prior_world (c : case) : world := run deployed (prior_cfg c) sched_handshake.
+Definition is_some {A : Type} (o : option A) : bool := match o with Some _ => true | None => false end.
+
+(* the world in which the observed attempt starts; None: the earlier attempt did not end the way
+   the class says (then nothing explains the case) *)
+Definition start_of (p : N) (w1 : world) : option world :=
+  if p =? 0 then Some init
+  else if p =? 1 then
+    (if is_done (rpc w1) && negb (is_some (registered w1)) && negb (is_some (returned w1))
+     then Some (next_attempt w1) else None)
+  else
+    (if is_done (rpc w1) && is_some (registered w1) && is_some (returned w1)
+     then Some (forget_registration (next_attempt w1)) else None).
+Definition start_world (c : case) : option world := start_of (prior c) (prior_world c).
+
+Definition prior_agrees (c : case) : bool :=
+  if prior c =? 0 then negb (prior_ok c)
+  else Bool.eqb (is_some (returned (prior_world c))) (prior_ok c).
+
 (* does the world reached by the model under one schedule explain the observation? *)
 Definition explains (c : case) (sched : list who) : bool :=
-  let w := run deployed (cfg_of c) sched in
-  ret_agrees w c && all2 sres_agrees (wr w) (outcomes c) &&
-  (N.of_nat (ga_calls w) * ninit c =? ga c).
+  match start_world c with
+  | None => false
+  | Some w0 =>
+      let w := run_from deployed (cfg_of c) w0 sched in
+      ret_agrees w c && all2 sres_agrees (wr w) (outcomes c) &&
+      (N.of_nat (ga_calls w) * ninit c =? ga c)
+  end.
 
 Definition candidates (c : case) : list (list who) :=
   let n := N.to_nat (nstreams c) in
@@ -86,13 +124,14 @@ Definition candidates (c : case) : list (list who) :=
 
 Definition early_agrees (c : case) : bool :=
   if klass c =? 0 then
-    let w := run deployed (cfg_of c) (sched_before_env (conn_close_other c) (N.to_nat (nstreams c))) in
+    let w := run_from deployed (cfg_of c) (match start_world c with Some w0 => w0 | None => init end)
+                      (sched_before_env (conn_close_other c) (N.to_nat (nstreams c))) in
     (N.of_nat (length (filter finished (wr w))) =? early c) &&
     Bool.eqb (match registered w with Some _ => true | None => false end) (reg_at_gate c)
   else (early c =? 0) && negb (reg_at_gate c).
 
 Definition agrees (c : case) : bool :=
-  existsb (explains c) (candidates c) && early_agrees c.
+  existsb (explains c) (candidates c) && early_agrees c && prior_agrees c.
 
 Definition mismatches (cs : list case) : list N :=
   map id (filter (fun c => negb (agrees c)) cs).
